@@ -114,29 +114,31 @@ class GraphWidget(anywidget.AnyWidget):
         # Encode all the subjects
         return walker(encode(self._get_pre_subjects(), root=True))
 
+    def _draggable_idxs(self):
+        """ Indices in pre_subjects of the draggable points. TODO: special treatment for CGA as well """
+        d = self.algebra.d
+        # Multidimensional multivectors are expanded into their elements, which can not be dragged.
+        idxs = [j for j, s in enumerate(self.pre_subjects) if isinstance(s, MultiVector) and len(s.shape) == 1]
+        if self.algebra.r == 1 and (d == 3 or d == 4):  # PGA
+            idxs = [j for j in idxs if self.pre_subjects[j].grades == (d - 1,)]
+        return idxs
+
     @traitlets.default('draggable_points')
     def get_draggable_points(self):
         # Extract the draggable points.
-        d = self.algebra.d
-        points = [s for s in self.pre_subjects if isinstance(s, MultiVector)]
-        if self.algebra.r == 1 and (d == 3 or d == 4):  # PGA
-            # TODO: special treatment for CGA as well
-            points = [p for p in points if p.grades == (d - 1,)]
-        return walker(encode(points))
+        return walker(encode([self.pre_subjects[j] for j in self._draggable_idxs()]))
 
     @traitlets.default('draggable_points_idxs')
     def get_draggable_points_idxs(self):
-        # Extract the draggable points. TODO: special treatment for CGA as well
-        d = self.algebra.d
-        if self.algebra.r == 1 and (d == 3 or d == 4):  # PGA
-            return [j for j, s in enumerate(self.pre_subjects)
-                    if isinstance(s, MultiVector) and s.grades == (d - 1,)]
-        return [j for j, s in enumerate(self.pre_subjects) if isinstance(s, MultiVector)]
+        # The front end looks the draggable points up in subjects, where a subject can take more than one
+        # place (e.g. a multidimensional multivector takes one place per element).
+        sizes = [len(walker(encode([s], root=True))) for s in self.pre_subjects]
+        return [sum(sizes[:j]) for j in self._draggable_idxs()]
 
     @traitlets.observe('draggable_points')
     def _observe_draggable_points(self, change):
         """ If draggable_points is changed, replace the raw_subjects in place. """
-        self.inplacereplace(self.pre_subjects, zip(self.draggable_points_idxs, change['new']))
+        self.inplacereplace(self.pre_subjects, zip(self._draggable_idxs(), change['new']))
         self.subjects = self.get_subjects().copy()
 
     @traitlets.validate("options")
